@@ -36,7 +36,7 @@ func (p *templateCmd) Configure(app *kingpin.Application) *kingpin.CmdClause {
 		"name of the sysl app defined in the sysl model."+
 			" if there are multiple Apps defined in the sysl model,"+
 			" code will be generated only for the given app").
-		Short('a').Default("").StringsVar(&p.appName)
+		Short('a').StringsVar(&p.appName)
 	cmd.Flag("start", "start rule for the template").Required().StringVar(&p.start)
 	cmd.Flag("outdir", "output directory").Short('o').Default(".").StringVar(&p.outDir)
 	EnsureFlagsNonEmpty(cmd, "app-name")
